@@ -100,8 +100,12 @@ CLAIMED = {
  "C09": dict(
    text="Theorems (Props/C09.v): for a stored log that is the next-closure of its heads with refs inside and heads = unreferenced entries "
         "(facts C02/C04/C17 establish for reachable logs), every schedule of the fetcher returns a permutation of the log, and the four "
-        "loaders rebuild the same id, entry set, heads and (for a strict total order) values. Tied by reloading reachable states "
-        "through all loaders under forced completion orders, validating recorded event traces against the executable model.",
+        "loaders rebuild the same id, entry set, heads and (for a strict total order) values; the bridge theorems instantiate this for "
+        "every replica of every well-formed history, and (Proofs/ReloadBridge.v) show that the reloaded log is the replica the model's "
+        "re-opening step makes from the loaded entries and heads, an admissible step of the histories with re-opened logs, so the "
+        "theorems about those histories cover what is appended to and merged with a reloaded log. Tied by reloading reachable states "
+        "through all loaders under forced completion orders, validating recorded event traces against the executable model; logs with a "
+        "configured ordering are reloaded with it through every loader and must linearise as the original.",
    technique="Coq proof (fetcher transition system) + trace validation and differential correspondence vs Go", design="6/C09"),
  "C10": dict(
    text="Theorems (Props/C10.v): the min-clock invariant of the limited fetch holds in every reachable state of every schedule; top-n of "
